@@ -310,6 +310,7 @@ def unmut(t):
 TRANSPARENT_CALLS = {
     "Clone::clone", "Deref::deref", "DerefMut::deref_mut", "AsRef::as_ref", "Borrow::borrow", "Into::into",
     "From::from", "IntoIterator::into_iter", "ToOwned::to_owned",
+    "Iterator::copied", "Iterator::cloned",      # same elements, by value
 }
 
 
